@@ -204,6 +204,10 @@ CanonD(N, i) == CanonDB(N, i, Len(N))
 \* two trees (possibly in different forests) denote the same document
 SameDocument(N, a, M, b) == CanonD(N, a) = CanonD(M, b)
 AdvancedDeepEqual(N, a, b, keep, tc) == Canon(N, a, keep, tc) = Canon(N, b, keep, tc)
+\* a comparison that is not an equivalence - "no two strings are equal" (think NaN): the supplied comparison decides
+\* wherever strings are compared (text nodes, attribute values, PI data), also when a node is compared with itself
+AdvancedNever(N, a, b) ==
+    DeepEqual(N, a, b) /\ ~\E j \in Subtree(N, a) : N[j].k \in {"text", "attr"} \/ (N[j].k = "pi" /\ N[j].d)
 DeepEqualChildren(N, a, b) ==
     LET ka == NormKids(N, a)  kb == NormKids(N, b) IN
     /\ Len(ka) = Len(kb)
